@@ -19,17 +19,18 @@ NumLexDef == [t \in {"0","1","2","3","4","5","6","7","8","0.5","0.25"} |->
                 CASE t = "0.5" -> <<1,2>> [] t = "0.25" -> <<1,4>>
                   [] t = "0" -> <<0,1>> [] t = "1" -> <<1,1>> [] t = "2" -> <<2,1>> [] t = "3" -> <<3,1>> [] t = "4" -> <<4,1>>
                   [] t = "5" -> <<5,1>> [] t = "6" -> <<6,1>> [] t = "7" -> <<7,1>> [] t = "8" -> <<8,1>>]
-NameOrderDef == <<"c", "dx_dt", "dy_dt", "k", "p", "q", "t", "u", "x", "y">>
+\* "U" and "u" differ only in case: a case-insensitive ordering would leave their relative order to the hash seed
+NameOrderDef == <<"U", "c", "dx_dt", "dy_dt", "k", "p", "q", "t", "u", "x", "y">>
 N(tok) == NumOf(tok)
 
 States == <<"x", "y">>
-Params == <<"p", "q">>
+Params == <<"p", "q", "U">>
 AllInters == <<"u", "k", "c">>                 \* build order; alphabetical order is c < k < u (adversarial)
 Inters == SubSeq(AllInters, 1, NInter)
 DerivsB == <<"dx_dt", "dy_dt">>
 Build == Inters \o DerivsB
-Leaves == {"x", "y", "p", "q", "t"}
-Allowed(i, lo) == (IF lo = "noparams" THEN Leaves \ {"p", "q"} ELSE Leaves) \cup ({Build[j] : j \in 1..(i - 1)} \ {"dx_dt", "dy_dt"})
+Leaves == {"x", "y", "p", "q", "t", "U"}
+Allowed(i, lo) == (IF lo = "noparams" THEN Leaves \ {"p", "q", "U"} ELSE Leaves) \cup ({Build[j] : j \in 1..(i - 1)} \ {"dx_dt", "dy_dt"})
 DepChoices(i, lo) == {S \in SUBSET Allowed(i, lo) : Cardinality(S) <= 2}
 LitTok(i) == CASE i = 1 -> "3" [] i = 2 -> "5" [] i = 3 -> "7" [] i = 4 -> "2" [] i = 5 -> "4" [] OTHER -> "6"
 
@@ -53,7 +54,7 @@ Tpl(i, ds) ==
 \*              assignment lines (inert for every numerical observation: C17; preserved by save/load: C11)
 CompLayouts == {"single", "split", "noparams", "annotated"}
 CompOf(layout, n) == IF layout \in {"single", "noparams", "annotated"} THEN ""
-                     ELSE IF n \in {"x", "p", "u", "c", "dx_dt"} THEN "A" ELSE "B"
+                     ELSE IF n \in {"x", "p", "u", "c", "dx_dt", "U"} THEN "A" ELSE "B"
 
 VARIABLES deps, sched, i, layout, pc,
           mi, lay          \* model info and layout: computed once when the model is complete
@@ -63,7 +64,7 @@ Perms(S) == {p \in [1..Cardinality(S) -> S] : \A a, b \in 1..Cardinality(S) : a 
 
 \* the model text
 Entry(n, e) == [name |-> n, e |-> e]
-UnitOf(n) == CASE n = "x" -> "mV" [] n = "y" -> "" [] n = "p" -> "ms**-1" [] n = "q" -> "" [] n = "u" -> "pA*pF**-1"
+UnitOf(n) == CASE n = "x" -> "mV" [] n = "U" -> "mM" [] n = "y" -> "" [] n = "p" -> "ms**-1" [] n = "q" -> "" [] n = "u" -> "pA*pF**-1"
                [] n = "dx_dt" -> "mV*ms**-1" [] OTHER -> ""
 DescOf(n) == CASE n = "x" -> "membrane potential" [] n = "q" -> "a rate" [] OTHER -> ""
 Annot(bs) == [b \in 1..Len(bs) |-> [bs[b] EXCEPT !.entries =
@@ -75,7 +76,7 @@ BlocksFor(d, c, names) ==
   IN (IF sts = <<>> THEN <<>> ELSE
         <<[k |-> "states", comp |-> c, entries |-> [j \in 1..Len(sts) |-> Entry(sts[j], IF sts[j] = "x" THEN N("1") ELSE N("0.5"))]]>>)
   \o (IF prs = <<>> THEN <<>> ELSE
-        <<[k |-> "parameters", comp |-> c, entries |-> [j \in 1..Len(prs) |-> Entry(prs[j], IF prs[j] = "p" THEN N("2") ELSE N("0.25"))]]>>)
+        <<[k |-> "parameters", comp |-> c, entries |-> [j \in 1..Len(prs) |-> Entry(prs[j], IF prs[j] = "p" THEN N("2") ELSE IF prs[j] = "U" THEN N("4") ELSE N("0.25"))]]>>)
   \o (IF idx = <<>> THEN <<>> ELSE
         <<[k |-> "expressions", comp |-> c, entries |-> [j \in 1..Len(idx) |-> Entry(Build[idx[j]], Tpl(idx[j], SortByName(d[Build[idx[j]]])))]]>>)
 AllN == SeqSet(States) \cup SeqSet(Params) \cup SeqSet(Build)
@@ -102,8 +103,8 @@ Spec == Init /\ [][Next]_vars
 Done == pc = "done"
 
 \* inputs (distinct dyadic values so that a slot mix-up changes the numbers)
-Inputs == << [t |-> Q(1,2), dt |-> Q(1,8), states |-> [x |-> Q(3,2), y |-> Q(-1,4)], params |-> [p |-> Q(3,1), q |-> Q(1,4)], missing |-> <<>>],
-             [t |-> Q(2,1), dt |-> Q(-1,4), states |-> [x |-> Q(-1,2), y |-> Q(2,1)], params |-> [p |-> Q(-1,1), q |-> Q(5,2)], missing |-> <<>>] >>
+Inputs == << [t |-> Q(1,2), dt |-> Q(1,8), states |-> [x |-> Q(3,2), y |-> Q(-1,4)], params |-> [p |-> Q(3,1), q |-> Q(1,4), U |-> Q(-3,2)], missing |-> <<>>],
+             [t |-> Q(2,1), dt |-> Q(-1,4), states |-> [x |-> Q(-1,2), y |-> Q(2,1)], params |-> [p |-> Q(-1,1), q |-> Q(5,2), U |-> Q(7,4)], missing |-> <<>>] >>
 DeltaAst == N("0.25")
 DeltaV == Q(1,4)
 Schemes == {"explicit_euler", "generalized_rush_larsen", "hybrid_rush_larsen"}
